@@ -667,5 +667,7 @@ def get_hardware_num_denom(
         )
 
     denom_diff = 4 - instr.angle_denom.value
-    angle_num = instr.angle_num.value * (2**denom_diff)
+    # Angles are periodic in 2 pi = 32 * pi / 2^4 (up to a global phase), so the
+    # numerator can always be kept small enough to be encoded.
+    angle_num = (instr.angle_num.value * (2**denom_diff)) % 32
     return (Immediate(angle_num), Immediate(4))
